@@ -92,6 +92,14 @@ impl<'me> BlockOnTransferredOwner<'me> {
     pub(super) fn block(self, query_mutex_guard: SyncGuard<'me>) -> BlockResult<'me> {
         // Cycle in the same thread.
         if self.thread_id == self.other_id {
+            #[cfg(salsa_rs_salsa_verif)]
+            crate::verif_proto::record(&[
+                crate::verif_proto::P::S("block"),
+                crate::verif_proto::P::T(self.thread_id),
+                crate::verif_proto::P::K(self.database_key),
+                crate::verif_proto::P::T(self.other_id),
+                crate::verif_proto::P::S("-> cycle"),
+            ]);
             return BlockResult::Cycle;
         }
 
@@ -102,8 +110,25 @@ impl<'me> BlockOnTransferredOwner<'me> {
                 self.other_id,
                 thread_id = self.thread_id
             );
+            #[cfg(salsa_rs_salsa_verif)]
+            crate::verif_proto::record(&[
+                crate::verif_proto::P::S("block"),
+                crate::verif_proto::P::T(self.thread_id),
+                crate::verif_proto::P::K(self.database_key),
+                crate::verif_proto::P::T(self.other_id),
+                crate::verif_proto::P::S("-> cycle"),
+            ]);
             return BlockResult::Cycle;
         }
+
+        #[cfg(salsa_rs_salsa_verif)]
+        crate::verif_proto::record(&[
+            crate::verif_proto::P::S("block"),
+            crate::verif_proto::P::T(self.thread_id),
+            crate::verif_proto::P::K(self.database_key),
+            crate::verif_proto::P::T(self.other_id),
+            crate::verif_proto::P::S("-> running"),
+        ]);
 
         BlockResult::Running(Running(Box::new(BlockedOnInner {
             dg: self.dg,
@@ -322,6 +347,14 @@ impl Runtime {
         let thread_id = thread::current().id();
         // Cycle in the same thread.
         if thread_id == other_id {
+            #[cfg(salsa_rs_salsa_verif)]
+            crate::verif_proto::record(&[
+                crate::verif_proto::P::S("block"),
+                crate::verif_proto::P::T(thread_id),
+                crate::verif_proto::P::K(database_key),
+                crate::verif_proto::P::T(other_id),
+                crate::verif_proto::P::S("-> cycle"),
+            ]);
             return BlockResult::Cycle;
         }
 
@@ -331,8 +364,25 @@ impl Runtime {
             crate::tracing::debug!(
                 "block_on: cycle detected for {database_key:?} in thread {thread_id:?} on {other_id:?}"
             );
+            #[cfg(salsa_rs_salsa_verif)]
+            crate::verif_proto::record(&[
+                crate::verif_proto::P::S("block"),
+                crate::verif_proto::P::T(thread_id),
+                crate::verif_proto::P::K(database_key),
+                crate::verif_proto::P::T(other_id),
+                crate::verif_proto::P::S("-> cycle"),
+            ]);
             return BlockResult::Cycle;
         }
+
+        #[cfg(salsa_rs_salsa_verif)]
+        crate::verif_proto::record(&[
+            crate::verif_proto::P::S("block"),
+            crate::verif_proto::P::T(thread_id),
+            crate::verif_proto::P::K(database_key),
+            crate::verif_proto::P::T(other_id),
+            crate::verif_proto::P::S("-> running"),
+        ]);
 
         BlockResult::Running(Running(Box::new(BlockedOnInner {
             dg,
@@ -384,6 +434,19 @@ impl Runtime {
         database_key: DatabaseKeyIndex,
         wait_result: WaitResult,
     ) {
+        #[cfg(salsa_rs_salsa_verif)]
+        {
+            // same call, but the record is appended while the lock is still held
+            let mut dg = self.dependency_graph.lock();
+            dg.unblock_runtimes_blocked_on(database_key, wait_result);
+            crate::verif_proto::record(&[
+                crate::verif_proto::P::S("unblock"),
+                crate::verif_proto::P::T(thread::current().id()),
+                crate::verif_proto::P::K(database_key),
+                crate::verif_proto::wait_result(wait_result),
+            ]);
+        }
+        #[cfg(not(salsa_rs_salsa_verif))]
         self.dependency_graph
             .lock()
             .unblock_runtimes_blocked_on(database_key, wait_result);
@@ -402,6 +465,18 @@ impl Runtime {
         database_key: DatabaseKeyIndex,
         wait_result: WaitResult,
     ) {
+        #[cfg(salsa_rs_salsa_verif)]
+        {
+            let mut dg = self.dependency_graph.lock();
+            dg.unblock_runtimes_blocked_on_transferred_queries_owned_by(database_key, wait_result);
+            crate::verif_proto::record(&[
+                crate::verif_proto::P::S("unblock_transferred"),
+                crate::verif_proto::P::T(thread::current().id()),
+                crate::verif_proto::P::K(database_key),
+                crate::verif_proto::wait_result(wait_result),
+            ]);
+        }
+        #[cfg(not(salsa_rs_salsa_verif))]
         self.dependency_graph
             .lock()
             .unblock_runtimes_blocked_on_transferred_queries_owned_by(database_key, wait_result);
@@ -413,6 +488,17 @@ impl Runtime {
     /// so that `query` now owns its lock again.
     #[cold]
     pub(super) fn undo_transfer_lock(&self, query: DatabaseKeyIndex) {
+        #[cfg(salsa_rs_salsa_verif)]
+        {
+            let mut dg = self.dependency_graph.lock();
+            dg.undo_transfer_lock(query);
+            crate::verif_proto::record(&[
+                crate::verif_proto::P::S("undo_transfer"),
+                crate::verif_proto::P::T(thread::current().id()),
+                crate::verif_proto::P::K(query),
+            ]);
+        }
+        #[cfg(not(salsa_rs_salsa_verif))]
         self.dependency_graph.lock().undo_transfer_lock(query);
     }
 
